@@ -346,7 +346,11 @@ fn result_line(c: &Case) -> Vec<i64> {
 
 fn print_case(c: &Case) {
     let j = |v: Vec<i64>| v.iter().map(|x| x.to_string()).collect::<Vec<_>>().join(" ");
-    println!("C {}\nR {}", j(c.encode()), j(result_line(c)));
+    // the input first (flushed): if the implementation never returns, the driver still sees which case it was
+    use std::io::Write;
+    println!("C {}", j(c.encode()));
+    std::io::stdout().flush().unwrap();
+    println!("R {}", j(result_line(c)));
 }
 
 // ------------------------------------------------------------------------------------------------ K generator
@@ -1001,6 +1005,13 @@ pub fn describe(spec: &NodeSpec) -> String {
     out
 }
 
+/// `START <idx>` (flushed) before a case is laid out: a hang or abort is attributed to the last START.
+fn start_line(idx: i64) {
+    use std::io::Write;
+    println!("START {}", idx);
+    std::io::stdout().flush().unwrap();
+}
+
 fn report(idx: i64, vs: &[Verdict]) -> (u64, u64) {
     let (mut f, mut k) = (0, 0);
     for v in vs {
@@ -1052,6 +1063,7 @@ pub fn main(args: &[String]) {
             let kcases: Vec<Case> = corpus().into_iter().chain((0..n / 4).map(|_| gen_k(&mut rng))).collect();
             for (i, c) in kcases.iter().enumerate() {
                 let spec = c.spec();
+                start_line(-(i as i64) - 1);
                 match std::panic::catch_unwind(|| {
                     let mut ch = [0u64; 5];
                     (oracle_on(&spec, Size::MAX_CONTENT, &mut ch), ch)
@@ -1069,6 +1081,7 @@ pub fn main(args: &[String]) {
             }
             for idx in 0..n {
                 let (spec, a) = gen_oracle(seed, idx);
+                start_line(idx as i64);
                 match std::panic::catch_unwind(|| {
                     let mut ch = [0u64; 5];
                     (oracle_on(&spec, a, &mut ch), ch)
